@@ -239,7 +239,7 @@ pub fn emit_air(path: &str, opt_level: OptimizationLevel) -> Result<i32, String>
     let typed_program = optimizer.optimize(typed_program);
 
     let mut air = aelys_air::lower::lower(&typed_program);
-    aelys_air::layout::compute_layouts(&mut air);
+    aelys_air::layout::try_compute_layouts(&mut air).map_err(|e| e.to_string())?;
     let air = aelys_air::mono::monomorphize(air);
 
     print!("{}", aelys_air::print::print_program(&air));
